@@ -40,6 +40,7 @@ def run(ck):
     ck.run_rule(f5_field_order)
     ck.run_rule(f6_orientation)
     ck.run_rule(f7_f8_counters_and_rejections)
+    ck.run_rule(f9_writer_total)
     # equality of a re-read position with the original also needs the board's derived fields to be functions of the placement
     from .c10 import b1_b2_frozen_board
     ck.run_rule(b1_b2_frozen_board)
@@ -581,3 +582,40 @@ def f7_f8_counters_and_rejections(ck):
         ck.req(n <= want, "F8.rejections", name.split("::")[-2] + "::" + name.split("::")[-1], b.where(),
                "the reader has %d rejection points, %d were reviewed: an added validation can refuse text the writer itself produces (review it and update the rule)"
                % (n, want), "%d rejection points (%d reviewed)" % (n, want))
+
+
+def f9_writer_total(ck):
+    """The round trip starts with writing: every position must be written in full, whatever its counters.  The writer and the workspace
+    functions it reaches may fail only when the formatter they write into fails - none of them produces a `fmt::Error` of its own (a
+    fixed-capacity staging buffer that reports "full" does).  `write!` reaches a workspace `impl fmt::Write` only through core's vtable, so
+    the sinks a reachable function constructs are added by their type."""
+    prog = ck.prog
+    import json as _json
+    from callgraph import CallGraph
+    cg = CallGraph(prog)
+    seen, _e, _i = cg.reachable([WRITER], fn_values=[])
+    seen = set(seen)
+    # workspace sinks: impl core::fmt::Write for T, T mentioned by a reachable function
+    sinks = []
+    for im in prog.impls:
+        if (im.get("trait") or "").endswith("fmt::Write") and im["self_ty"].startswith("weechess_"):
+            ty = im["self_ty"]
+            if any(any(ty in str(l.get("ty", "")) for l in prog.raw_body(n).locals) for n in seen if prog.raw_body(n) is not None):
+                sinks.append(ty)
+                for n2 in prog.bodies:
+                    if n2.startswith("<" + ty + " as ") and "fmt::Write" in n2:
+                        more, _e2, _i2 = cg.reachable([n2], fn_values=[])
+                        seen |= set(more)
+    n = 0
+    for name in sorted(seen):
+        b = prog.raw_body(name)
+        if b is None or b.crate not in ("weechess_core", "weechess_engine"):
+            continue
+        n += 1
+        txt = _json.dumps(b.j["blocks"])
+        if '"ty": "core::fmt::Error"' in txt or '"adt": "core::fmt::Error"' in txt:
+            ck.fail("F9.writer_total", name.split("::")[-1], b.where(),
+                    "a function the FEN writer reaches produces a formatting error of its own (e.g. a full fixed-size buffer): some legal positions - long "
+                    "placements with huge counters - cannot be written at all")
+    ck.floor("F9", n, 5, "workspace functions reachable from the FEN writer")
+    ck.ok("F9.writer_total", "FEN writer", "", "%d reachable workspace function(s), %d workspace fmt::Write sink(s): no fmt::Error of their own" % (n, len(sinks)))
